@@ -84,9 +84,10 @@ static void fh_add(MPI_File f, char c) { int i; for (i = 0; i < fh_n; i++) if (f
 static const char *fh_tgt(MPI_File f) { int i; for (i = fh_n - 1; i >= 0; i--) if (fh_tab[i] == f) return fh_cls[i] == 'C' ? "FC" : "FS"; return "F?"; }
 static void fh_del(MPI_File f) { int i; for (i = 0; i < fh_n; i++) if (fh_tab[i] == f) { fh_tab[i] = fh_tab[fh_n - 1]; fh_cls[i] = fh_cls[fh_n - 1]; fh_n--; return; } }
 
-#define ENTER(name, tgt) void *ra_ = __builtin_return_address(0); int lg_ = g_log && in_exe(ra_); \
-    if (lg_) { snprintf(g_last, sizeof g_last, "%s", name); g_inop = 1; lg("%s %s %s %p\n", g_log == 1 ? "OP" : "XOP", name, tgt, ra_); }
-#define LEAVE() if (lg_) { g_inop = 0; lg(g_log == 1 ? "DONE\n" : "XDONE\n"); }
+#define ENTER(name, tgt) void *ra_ = __builtin_return_address(0); int ex_ = in_exe(ra_); int lg_ = g_log && ex_; \
+    if (ex_) { snprintf(g_last, sizeof g_last, "%s", name); g_inop = 1; } \
+    if (lg_) { lg("%s %s %s %p\n", g_log == 1 ? "OP" : "XOP", name, tgt, ra_); }
+#define LEAVE() if (ex_) g_inop = 0; if (lg_) { lg(g_log == 1 ? "DONE\n" : "XDONE\n"); }
 
 int MPI_Allreduce(const void *s, void *r, int n, MPI_Datatype t, MPI_Op op, MPI_Comm c)
 { ENTER("MPI_Allreduce", comm_tgt(c)) int e = PMPI_Allreduce(s, r, n, t, op, c); LEAVE() return e; }
